@@ -37,6 +37,8 @@ def expr_of(fn, op_or_local, depth=12, _seen=None):
                 return ("const", int(op["val"]))
             if op.get("str") is not None:
                 return ("str", op["str"])
+            if op.get("variant") is not None:
+                return ("enumconst", op.get("ty"), op["variant"])
             return ("constty", op.get("ty"), op.get("named"))
         if k == "fn":
             return ("fn", op.get("res") or op["path"])
@@ -139,6 +141,10 @@ def expr_str(e, depth=6):
         return str(e[1])
     if k == "str":
         return repr(e[1])
+    if k == "enumconst":
+        return f"{e[1].split('::')[-1]}::{e[2]}"
+    if k == "constty":
+        return f"const<{e[1]}>"
     if k == "fn":
         return "fn:" + e[1].split("::")[-1]
     if k == "arg":
@@ -243,6 +249,36 @@ def held_at_exits(fn, acq_bb, release_bbs, cuts=frozenset()):
     reach_noerr = cut_edges_reach(fn, starts, set(release_bbs) | errs, cuts)
     normal_held = bool(reach_noerr & rets)
     return normal_held, err_held
+
+
+def qmark_fail_edges(fn, call_bb):
+    """CFG edges taken when the `?` applied (possibly after map_err/…) to the result of the call in
+    block call_bb fails: the Break arm of the switch after Try::branch"""
+    cuts = set()
+    for c in fn.calls():
+        if not c.path.endswith("Try::branch"):
+            continue
+        e = expr_of(fn, c.args[0])
+        base = e
+        while isinstance(base, tuple) and base[0] == "call" and base[3].bb != call_bb and base[2] and re.search(r"(map_err|map|ok_or|ok_or_else|context|with_context|and_then)$", base[1]):
+            base = base[2][0]
+        if isinstance(base, tuple) and base[0] == "call" and base[3].bb == call_bb:
+            # successor switch
+            nb = c.target
+            seen = set()
+            while nb is not None and nb not in seen:
+                seen.add(nb)
+                t = fn.blocks[nb]["term"]
+                if t["t"] == "switch":
+                    for v, tgt in t["arms"]:
+                        if int(v) == 1:
+                            cuts.add((nb, tgt))
+                    if all(int(v) != 1 for v, _ in t["arms"]):
+                        cuts.add((nb, t["otherwise"]))
+                    break
+                ss = fn.succ(nb)
+                nb = ss[0] if len(ss) == 1 else None
+    return cuts
 
 
 def switch_cuts_on_call_result(fn, call_pred, arm_values, universe=(0, 1)):
@@ -377,3 +413,143 @@ def who_calls(prog, pred):
 def owner_fn(path):
     """strip closure suffixes: a::b::{closure#0}::{closure#1} -> a::b"""
     return re.sub(r"(::\{closure#\d+\})+(#\d+)?$", "", path)
+
+
+def switches_on_type(fn, ty_prefix):
+    """[(bb, term, place)] for switches whose discriminant is discr(place) with place type starting with ty_prefix
+    (reference types are peeled)"""
+    out = []
+    for i, b in enumerate(fn.blocks):
+        t = b["term"]
+        if t["t"] != "switch":
+            continue
+        l = op_local(t["discr"])
+        if l is None:
+            continue
+        for kind, bb, rv in defs_of(fn, l):
+            if kind == "assign" and rv["r"] == "discr":
+                ty = rv.get("ty", "").lstrip("&").replace("mut ", "")
+                if ty.startswith(ty_prefix):
+                    out.append((i, t, rv["p"]))
+    return out
+
+
+def switch_arm_map(prog, adt_path, term):
+    """variant name -> target block for a switch over an enum (otherwise covers the unlisted variants)"""
+    names = variant_names(prog, adt_path)
+    m = {}
+    listed = {int(v): tgt for v, tgt in term["arms"]}
+    for d, n in names.items():
+        m[n] = listed.get(d, term["otherwise"])
+    return m
+
+
+def option_handle_cuts(fn, acq_bb):
+    """idiom: the handle returned by an acquire is kept in an Option local; `if let Some(h) = local { release(h) }`.
+    After the acquire the None arm is infeasible: cut it."""
+    cuts = set()
+    locs = set()
+    for i, j, p, rv, sp in fn.assigns():
+        if len(p) == 1 and rv["r"] == "agg" and rv["kind"] == "adt" and rv["name"] == "std::option::Option" and rv["variant"] == "Some":
+            e = expr_of(fn, rv["ops"][0])
+            if any(isinstance(x, Call) and x.bb == acq_bb for x in _expr_call_objs(e)):
+                locs.add(p[0])
+    # propagate through plain moves/copies
+    changed = True
+    while changed:
+        changed = False
+        for i, j, p, rv, sp in fn.assigns():
+            if len(p) == 1 and rv["r"] == "use":
+                l = op_local(rv["op"])
+                if l in locs and p[0] not in locs:
+                    locs.add(p[0])
+                    changed = True
+    for i, b in enumerate(fn.blocks):
+        t = b["term"]
+        if t["t"] != "switch":
+            continue
+        l = op_local(t["discr"])
+        if l is None:
+            continue
+        for kind, bb, rv in defs_of(fn, l):
+            if kind == "assign" and rv["r"] == "discr" and len(rv["p"]) == 1 and rv["p"][0] in locs:
+                listed = {int(v) for v, _ in t["arms"]}
+                for v, tgt in t["arms"]:
+                    if int(v) == 0:
+                        cuts.add((i, tgt))
+                if 0 not in listed:
+                    cuts.add((i, t["otherwise"]))
+    return cuts
+
+
+def _expr_call_objs(e, out=None, depth=12):
+    if out is None:
+        out = []
+    if not isinstance(e, tuple) or depth == 0:
+        return out
+    if e[0] == "call":
+        out.append(e[3])
+        for a in e[2]:
+            _expr_call_objs(a, out, depth - 1)
+    elif e[0] == "bin":
+        _expr_call_objs(e[2], out, depth - 1)
+        _expr_call_objs(e[3], out, depth - 1)
+    elif e[0] in ("un", "cast"):
+        _expr_call_objs(e[2], out, depth - 1)
+    elif e[0] in ("try", "ref", "discr", "field"):
+        _expr_call_objs(e[1], out, depth - 1)
+    elif e[0] == "multi":
+        for x in e[1]:
+            _expr_call_objs(x, out, depth - 1)
+    elif e[0] == "agg":
+        for x in e[4]:
+            _expr_call_objs(x, out, depth - 1)
+    return out
+
+
+def normal_exit_sites_held(fn, acq_bb, release_bbs, cuts=frozenset()):
+    """blocks that produce a non-error return value (assign _0 / call into _0) and are reachable
+    from the acquire without a release; described for keys by the value built"""
+    errs = fn.error_exit_blocks()
+    reach = cut_edges_reach(fn, fn.succ(acq_bb), set(release_bbs) | errs, cuts)
+    rets = set(fn.return_blocks())
+    out = []
+    for b in sorted(reach):
+        # must still reach return while held
+        if not (cut_edges_reach(fn, [b], set(release_bbs) | errs, cuts) & rets):
+            continue
+        desc = None
+        for s in fn.blocks[b]["stmts"]:
+            if s["s"] == "assign" and s["p"] == [0]:
+                desc = expr_head(expr_of(fn, s["rv"]["op"]) if s["rv"]["r"] == "use" else _rv_expr(fn, s["rv"]))
+        c = fn.call_at(b)
+        if c is not None and c.dest == [0]:
+            desc = short(c.name)
+        if desc is not None:
+            out.append((b, desc))
+    return out
+
+
+def _rv_expr(fn, rv):
+    if rv["r"] == "agg":
+        return ("agg", rv["kind"], rv["name"], rv["variant"], [expr_of(fn, o) for o in rv["ops"]], rv.get("fields", []))
+    return ("unknown",)
+
+
+def expr_head(e, depth=3):
+    """constructor/callee skeleton of an expression, without operands: Ok(signal_interrupt)"""
+    if not isinstance(e, tuple) or depth == 0:
+        return "_"
+    if e[0] == "agg":
+        inner = expr_head(e[4][0], depth - 1) if e[4] else ""
+        nm = e[3] or e[2].split("::")[-1] or e[1]
+        return f"{nm}({inner})" if inner and inner != "_" else nm
+    if e[0] == "call":
+        return e[1].split("::")[-1]
+    if e[0] == "enumconst":
+        return e[2]
+    if e[0] in ("try", "ref", "field"):
+        return expr_head(e[1], depth)
+    if e[0] == "const":
+        return str(e[1])
+    return "_"
